@@ -78,6 +78,51 @@ func conffilesBuilder(c *Ctx, reach map[*ssa.Function]bool) (*ssa.Function, ssa.
 	return nil, nil
 }
 
+// bypassable: inside the contents loop of the frame's function there is a live
+// path from the start of the loop body back to the loop header that does not
+// execute `at` — i.e. under the cell's assumption the instruction is reached
+// on some iterations only, depending on something the cell does not fix.
+func bypassable(fr *Frame, at ssa.Instruction) bool {
+	fn := fr.Fn
+	var body *ssa.BasicBlock
+	for _, b := range fn.Blocks {
+		for _, in := range b.Instrs {
+			if ia, ok := in.(*ssa.IndexAddr); ok && isContentContainer(ia.X.Type()) {
+				body = b
+			}
+		}
+	}
+	if body == nil || body.Idom() == nil {
+		return false
+	}
+	header := body.Idom()
+	target := at.Block()
+	seen := map[*ssa.BasicBlock]bool{}
+	var dfs func(b *ssa.BasicBlock) bool
+	dfs = func(b *ssa.BasicBlock) bool {
+		if b == target {
+			return false
+		}
+		if b == header {
+			return true
+		}
+		if seen[b] {
+			return false
+		}
+		seen[b] = true
+		for _, s := range b.Succs {
+			if !fr.liveEdge[[2]int{b.Index, s.Index}] {
+				continue
+			}
+			if dfs(s) {
+				return true
+			}
+		}
+		return false
+	}
+	return dfs(body)
+}
+
 // liveAppends returns the provenance of every value appended in live code.
 func liveAppends(pa *provAnalysis, fr *Frame) []provSet {
 	var out []provSet
@@ -121,14 +166,25 @@ func checkC08(c *Ctx, r *Report) {
 			cells++
 			ev := cellEvaluator(c, typ, nil)
 			fr := ev.Explore(builder, make([]AV, len(builder.Params)))
-			apps := liveAppends(pa, fr)
 			registered := false
 			pathOK := false
-			for _, p := range apps {
+			conditional := false
+			for _, li := range fr.LiveInstrs() {
+				call, ok := li.In.(*ssa.Call)
+				if !ok || li.F != fr {
+					continue
+				}
+				if b, ok := call.Call.Value.(*ssa.Builtin); !ok || b.Name() != "append" || len(call.Call.Args) != 2 {
+					continue
+				}
+				p := pa.Of(call.Call.Args[1])
 				if p.has("Content.Destination") {
 					registered = true
 					if p.has("via:files.NormalizeAbsoluteFilePath") {
 						pathOK = true
+					}
+					if bypassable(fr, call) {
+						conditional = true
 					}
 				}
 			}
@@ -139,6 +195,10 @@ func checkC08(c *Ctx, r *Report) {
 			if ok && want && !pathOK {
 				ok = false
 				detail += "; the listed path is not the absolute cleaned destination (files.NormalizeAbsoluteFilePath)"
+			}
+			if ok && want && conditional {
+				ok = false
+				detail += "; registration is reached on some iterations only: it depends on something other than the declared type"
 			}
 			r.Check(ok, "R-conffiles", construct, c.pos(builder.Pos()), detail)
 		}
@@ -175,11 +235,14 @@ func checkC08(c *Ctx, r *Report) {
 							pathOK = true
 						}
 					}
+					if bypassable(fr, call) {
+						pathOK = false
+					}
 				}
 				want := specRelevant("archlinux", "", typ) && configTypes[typ]
 				ok := registered == want && (!want || pathOK)
 				r.Check(ok, "R-backup", fmt.Sprintf("archlinux backup[type=%q]", typ), c.pos(host.Pos()),
-					fmt.Sprintf("registered=%v (relative destination=%v), expected=%v", registered, pathOK, want))
+					fmt.Sprintf("registered=%v (relative destination, on every iteration=%v), expected=%v", registered, pathOK, want))
 			}
 		}
 	}
@@ -301,6 +364,32 @@ func checkC08(c *Ctx, r *Report) {
 		}
 		if c.Tier == "thorough" {
 			checkRpmpackConstants(c, r)
+		}
+	}
+
+	// ---- rpm-only types never reach another format (selection in the planner) ----
+	if prep := c.Func("files", "PrepareForPackager"); prep != nil {
+		for _, format := range specFormats {
+			for _, typ := range []string{typeGhost, typeDoc, typeLicence, typeLicense, typeReadme} {
+				for _, tag := range []string{"", format} {
+					cells++
+					ev := newEvaluator(c)
+					obj := newAObj("content")
+					obj.Fields["Type"] = cStr(typ)
+					obj.Fields["Packager"] = cStr(tag)
+					ev.Defaults[c.contentPtrKey()] = obj
+					args := make([]AV, len(prep.Params))
+					for i, p := range prep.Params {
+						if b, ok := p.Type().Underlying().(*types.Basic); ok && b.Kind() == types.String {
+							args[i] = cStr(format)
+						}
+					}
+					got := planMarkers(c, ev.Explore(prep, args))
+					want := format == "rpm"
+					r.Check((len(got) > 0) == want, "R-rpm-only", fmt.Sprintf("plan for %s contains type %q [tag=%q]", format, typ, tag), c.pos(prep.Pos()),
+						fmt.Sprintf("planner mechanisms live {%s}; rpm-only entry types must be planned for rpm only", joinSorted(got)))
+				}
+			}
 		}
 	}
 
